@@ -123,5 +123,5 @@ Proof. vm_compute. discriminate. Qed.
 (* int ** nat with a nat exponent >= 2^63: Python 1 ** 2^63 = 1, Guppy panics (None) *)
 Theorem pow_big_nat_exponent_refuted :
   run fm0 (resolve_bin T Pow TInt TNat) [VW 1; VW H64] = None /\ py_pow 1 H64 = 1.
-Proof. split; [vm_compute; reflexivity | reflexivity]. Qed.
+Proof. split; [vm_compute; reflexivity | unfold py_pow; apply Z.pow_1_l; unfold H64; lia]. Qed.
 End Witness.
